@@ -759,7 +759,8 @@ class NDNApp:
             For example, manually or by the other side.
         """
         async def starting_task():
-            for name in self._autoreg_routes:
+            # (a copy: a route declared while these registrations are on their way registers itself)
+            for name in list(self._autoreg_routes):
                 await self.register(name)
             if after_start:
                 try:
